@@ -476,7 +476,7 @@ def _memo(ctx, nz):
                     and isinstance(node.ast.targets[0], ast.Subscript) and \
                     'recorder' in N.txt(node.ast.targets[0].value):
                 count += 1
-                plain = isinstance(node.ast.value, ast.Name)
+                plain = isinstance(K.rexpr(func, node.ast.value), ast.Name)
                 ok = K.guarded_by_atoms(ctx, func, graph, node,
                                         smaller_or_new, nz)
                 ctx.ob('C02.3', func, node, plain and ok,
